@@ -348,6 +348,10 @@ func c16Special(t *engine.T) {
  return "E" } %><%= f("q", "y") %>|<%= f("z", "y") %>|<% let g = fn(a) { return a
  if (true) { mark() } else { mark() }
  return "dead" } %><%= g("G") %>|<%= f("q", "n") %>`, "C|E|G|C"},
+		{"a callee invoked from a function without parameters and lets still runs in its own scope", `<% let a = 100 %><% let g = fn(a) { return a + 1 } %><% let f = fn() { let r = g(1)
+ return r + a } %><% let h = fn() { return g(5) + a } %><% let k = fn() { return h() + g(7) + a } %><%= f() %>|<%= h() %>|<%= k() %>|<%= a %>`, "102|106|214|100"},
+		{"arguments that are paths rooted at a variable named like an earlier parameter", `<% let last = fn(n, v) { if (n) { return last(n.Kid, n.Name) }
+ return v } %><% let two = fn(a, b) { return a.Name + "-" + b } %><% let a = pers %><% let n = pers %><%= last(n.Kid, n.Name) %>|<%= two(a.Kid, a.Name) %>|<%= two(pers.Kid, a.Name) %>|<% let sw = fn(a, b) { return a + "/" + b } %><%= sw(b, a.Name) %>`, "K|K-N|K-N|A/N"},
 		{"apply with two different functions", `<% let f1 = fn(a) { return a + "1" } %><% let f2 = fn(a) { return a + "2" } %><% let apply = fn(g, v) { return g(v) } %><%= apply(f1, "A") %>|<%= apply(f2, "A") %>|<%= apply(f1, apply(f2, "B")) %>`, "A1|A2|B21"},
 		{"rebound function variable", `<% let h = fn(a) { return "p" + a } %><%= h("1") %><% h = fn(a) { return "q" + a } %>|<%= h("1") %><% let k = h %>|<%= k("2") %>`, "p1|q1|q2"},
 		{"parameter named like a defined function", `<% let f = fn(a) { return "outer" + a } %><% let call = fn(f, v) { return f(v) } %><% let other = fn(a) { return "param" + a } %><%= call(other, "1") %>|<%= f("2") %>|<%= call(f, "3") %>`, "param1|outer2|outer3"},
